@@ -176,6 +176,19 @@ class PythonClassEmitter(PythonEmitter):
             self(line)
 
 
+def _make_function_identifier(name):
+    from keyword import iskeyword
+
+    from dagrt.codegen.utils import make_identifier_from_name
+
+    # Function identifiers are used as attribute names without any further
+    # prefix, so they have to be valid on their own.
+    result = make_identifier_from_name(name)
+    if iskeyword(result) or not (result[0].isalpha() or result[0] == "_"):
+        result = "f_" + result
+    return result
+
+
 class PythonNameManager:
     """Maps names that appear in intermediate code to Python identifiers.
     """
@@ -185,7 +198,9 @@ class PythonNameManager:
         self._global_map = KeyToUniqueNameMap(forced_prefix="self.global_",
                                               start={"<t>": "self.t",
                                                      "<dt>": "self.dt"})
-        self.function_map = KeyToUniqueNameMap(forced_prefix="self._functions.")
+        self.function_map = KeyToUniqueNameMap(
+                forced_prefix="self._functions.",
+                key_translate_func=_make_function_identifier)
 
     def name_global(self, name):
         """Return the identifier for a global variable."""
